@@ -819,10 +819,17 @@ func init() {
 		dst, ok1 := args[0].(Iface)
 		src, ok2 := args[1].(Iface)
 		opts, _ := args[2].(Slice)
-		if !ok1 || !ok2 || len(opts.a) != 1 {
-			panic(w.unsupported("mergo.Merge: only (&map, map, WithOverride) is modelled"))
+		if _, isStruct := src.v.(Struct); !ok1 || !ok2 || (len(opts.a) != 1 && !isStruct) {
+			panic(w.unsupported("mergo.Merge: only (&map, map, WithOverride) and (&struct, struct) are modelled"))
 		}
 		dp, ok1 := dst.v.(Ptr)
+		if ss, isStruct := src.v.(Struct); isStruct && ok1 && dp != nil {
+			// struct into struct without override: zero fields of dst are filled from src
+			if ds, ok := (*dp).(Struct); ok && len(ds) == len(ss) {
+				mergeStructFill(ds, ss)
+				return Iface{}
+			}
+		}
 		sm, ok2 := src.v.(*Map)
 		if !ok1 || !ok2 || dp == nil {
 			panic(w.unsupported("mergo.Merge on %s / %s: only maps are modelled", show(dst.v), show(src.v)))
@@ -851,6 +858,42 @@ func init() {
 	registerRegexpIntrinsics(reg)
 	_ = unicode.IsSpace
 	_ = sort.Ints
+}
+
+func isZeroConcrete(v Value) bool {
+	switch x := v.(type) {
+	case bool:
+		return !x
+	case int64:
+		return x == 0
+	case float64:
+		return x == 0
+	case string:
+		return x == ""
+	case Ptr:
+		return x == nil
+	case Slice:
+		return x.nil || len(x.a) == 0
+	case *Map:
+		return x == nil || len(x.entries) == 0
+	case Iface:
+		return x.t == nil
+	}
+	return false
+}
+
+func mergeStructFill(dst, src Struct) {
+	for i := range dst {
+		if ds, ok := dst[i].(Struct); ok {
+			if ss, ok := src[i].(Struct); ok {
+				mergeStructFill(ds, ss)
+			}
+			continue
+		}
+		if isZeroConcrete(dst[i]) {
+			dst[i] = copyVal(src[i])
+		}
+	}
 }
 
 // sortSliceIntrinsic sorts via insertion sort calling the less closure synchronously (forks on
